@@ -41,7 +41,7 @@ def cases(tier, rng):
             lst([a], ANON), lst([Y], Z), lst([a, b, c], Y), lst([Y, Z], ANON), lst([Y], ANON)]
     for _ in range(n):
         d = rng.choice(SSS)
-        k = rng.randint(1, 4)
+        k = rng.choice([1, 2, 3, 4, 1, 2, 3, 4, 7, 8, 9, 11, 16])
         ts = [rng.choice(ins) for _ in range(k)]
         o = rng.choice(outs)
         out.append(("(bip %s (%s %s) %s)" % (name, " ".join(ts), o, ss_from(d)), "random" if o == OUT else "random-bound-out"))
@@ -59,7 +59,7 @@ def cases(tier, rng):
         if cse[0] not in seen: seen.add(cse[0]); res.append(cse)
     return res
 
-RULE = ("append with 1 input (all of 26 inputs, three of them lists of 9-17 elements), 2 inputs (a sample of all pairs; thorough: all) and 1-4 random inputs, under 7 "
+RULE = ("append with 1 input (all of 26 inputs, three of them lists of 9-17 elements), 2 inputs (a sample of all pairs; thorough: all) and 1-16 random inputs, under 7 "
         "substitutions that bind tail variables to lists (also to a list whose tail is again bound, to [], to a non-list), "
         "variables to constants and through chains; inputs: atoms, numbers, complex terms, [], nested and empty-list elements, "
         "lists with bound / unbound / $_ tails, bound and unbound variables, a function term. Oracle (python twin of "
